@@ -76,7 +76,7 @@ func (k *c09) timerRearm() {
 		}
 		return
 	}
-	pf := &PathFlow{Follow: k.follow, Facts: k.fc}
+	pf := k.flow()
 	pf.Instr = func(pf *PathFlow, in ssa.Instruction, replay bool, st PState) []PState {
 		if _, isDefer := in.(*ssa.Defer); isDefer && !replay {
 			return []PState{st}
@@ -91,8 +91,10 @@ func (k *c09) timerRearm() {
 		}
 		switch x := in.(type) {
 		case *ssa.Store:
-			if f, ok := k.addrField(x.Addr); ok && f == k.fTimer {
-				st.A = 0
+			for _, ss := range k.stateStores(in) {
+				if ss.field == k.fTimer {
+					st.A = 0
+				}
 			}
 		case ssa.CallInstruction:
 			switch {
@@ -157,7 +159,7 @@ func (k *c09) backoffBounded() {
 	)
 	s := &c09Sites{k: k, find: map[string]*c09Finding{}}
 	loads := map[*ssa.UnOp]int{}
-	var growth []ssa.Instruction
+	growth := k.growthOps()
 	for _, fn := range k.fns {
 		if k.ctorOnly[fn] {
 			continue
@@ -166,13 +168,9 @@ func (k *c09) backoffBounded() {
 			switch x := in.(type) {
 			case *ssa.UnOp:
 				if x.Op == token.MUL {
-					if f, ok := k.addrField(x.X); ok && f == k.fCur {
+					if f, ok := k.addrFieldR(x.X); ok && f == k.fCur {
 						loads[x] = len(loads)
 					}
-				}
-			case *ssa.Store:
-				if f, ok := k.addrField(x.Addr); ok && f == k.fBackoff && k.isGrowthOf(x.Val, k.fBackoff) {
-					growth = append(growth, in)
 				}
 			}
 		})
@@ -187,7 +185,7 @@ func (k *c09) backoffBounded() {
 		return 0
 	}
 	rawMsg := "the current window length is not clamped to the maximum delay before it is used / the lock is released: the window can exceed MaxDelay"
-	pf := &PathFlow{Follow: k.follow, Facts: k.fc}
+	pf := k.flow()
 	pf.Instr = func(pf *PathFlow, in ssa.Instruction, replay bool, st PState) []PState {
 		if _, isDefer := in.(*ssa.Defer); isDefer && !replay {
 			return []PState{st}
@@ -199,29 +197,35 @@ func (k *c09) backoffBounded() {
 			if x.Op == token.MUL {
 				st.B |= curBit(x)
 			}
-		case *ssa.Store:
-			f, ok := k.addrField(x.Addr)
-			if !ok {
-				break
+		case *ssa.BinOp:
+			if growth[x] {
+				s.note("C09.L9-backoff-bounded", k.fname(in.Parent())+" backoffFactor growth", k.p.Pos(instrPos(in)), "factor grows only while current < max; current clamped to max",
+					"the back-off factor keeps growing once the window has reached the maximum delay (the guard is not the strict current < max): after a few dozen Adds in one extended window initialDelay*factor overflows and the window collapses to zero/negative, so a long burst is signalled immediately and repeatedly", st.A&cBelow == 0)
 			}
-			switch f {
-			case k.fCur:
+		case *ssa.Store:
+			for _, ss := range k.stateStores(in) {
+				if ss.field != k.fCur {
+					continue
+				}
+				cl := 0
+				if ss.multi {
+					s.prob = append(s.prob, k.fCur+" is assigned through a struct value that is not a simple literal in "+k.fname(in.Parent()))
+					cl = 1
+				}
+				if !ss.zero && !ss.multi {
+					cl = k.clamped(pf, ss.val, x.Block(), 0, nil)
+				}
+				if ss.zero {
+					cl = 1
+				}
 				st.B = 0
-				st.A &^= cBelow | cRaw
-				if !k.clamped(pf, x.Val, x.Block(), 0) {
+				st.A &^= cBelow
+				switch cl {
+				case 1:
+					st.A &^= cRaw
+				case 0:
 					st.A |= cRaw
-				}
-			case k.fBackoff:
-				if _, isConst := x.Val.(*ssa.Const); isConst {
-					break
-				}
-				construct := k.fname(in.Parent()) + " backoffFactor growth"
-				if k.isGrowthOf(x.Val, k.fBackoff) {
-					s.note("C09.L9-backoff-bounded", construct, k.p.Pos(instrPos(in)), "factor grows only while current < max; current clamped to max",
-						"the back-off factor keeps growing once the window has reached the maximum delay (the guard is not the strict current < max): after a few dozen Adds in one extended window initialDelay*factor overflows and the window collapses to zero/negative, so a long burst is signalled immediately and repeatedly", st.A&cBelow == 0)
-				} else if st.A&cBelow == 0 {
-					s.prob = append(s.prob, "store to the back-off factor of an unrecognised shape in "+k.fname(in.Parent()))
-				}
+				} // 2: the value it already had: unchanged
 			}
 		case ssa.CallInstruction:
 			if id, kind, ok := k.e.lockOp(x); ok && id == k.lockID {
@@ -267,24 +271,103 @@ func (k *c09) backoffBounded() {
 	}
 	pf.Run(k.run, []PState{{}})
 	s.prob = append(s.prob, pf.Problems...)
-	for _, g := range growth {
+	var gl []*ssa.BinOp
+	for g := range growth {
+		gl = append(gl, g)
+	}
+	sort.Slice(gl, func(i, j int) bool { return gl[i].Pos() < gl[j].Pos() })
+	for _, g := range gl {
 		if !pf.Visited[g] {
 			k.r.Undecide("C09: the back-off growth in %s is not reached by the exploration of Run", k.fname(g.Parent()))
 		}
 	}
 	s.flush()
 	if len(growth) == 0 {
-		k.r.Violation("C09.L9-backoff-bounded", k.tkey+" backoffFactor growth", "-", "the quiet window no longer grows while events keep arriving")
+		// positively absent only if the factor is never assigned anything but constants
+		nonConst := false
+		for _, fn := range k.fns {
+			if k.ctorOnly[fn] {
+				continue
+			}
+			allInstrs(fn, func(in ssa.Instruction) {
+				for _, ss := range k.stateStores(in) {
+					if _, isConst := ss.val.(*ssa.Const); ss.field == k.fBackoff && !ss.zero && !isConst {
+						nonConst = true
+					}
+				}
+			})
+		}
+		if nonConst {
+			k.r.Undecide("C09: how the back-off factor grows was not recognised")
+		} else {
+			k.r.Violation("C09.L9-backoff-bounded", k.tkey+" backoffFactor growth", "-", "the quiet window no longer grows while events keep arriving")
+		}
 	}
 }
 
-// clamped: value v is known to be <= the maximum delay when stored in block b.
-func (k *c09) clamped(pf *PathFlow, v ssa.Value, b *ssa.BasicBlock, depth int) bool {
-	if depth > 6 {
-		return false
+// growthOps: the multiplications/shifts/additions of the back-off factor's own
+// value whose result is (possibly through helper results) stored back into it.
+func (k *c09) growthOps() map[*ssa.BinOp]bool {
+	out := map[*ssa.BinOp]bool{}
+	if k.fBackoff == "" {
+		return out
 	}
-	if t := k.term(nil, v); t.kind == 2 && (t.field == k.fMax || t.field == k.fInit) {
-		return true
+	for _, fn := range k.fns {
+		if k.ctorOnly[fn] {
+			continue
+		}
+		allInstrs(fn, func(in ssa.Instruction) {
+			for _, ss := range k.stateStores(in) {
+				if ss.field != k.fBackoff || ss.zero {
+					continue
+				}
+				for _, r := range k.rc.Roots(ss.val) {
+					bo, ok := r.(*ssa.BinOp)
+					if !ok || (bo.Op != token.MUL && bo.Op != token.SHL && bo.Op != token.ADD) {
+						continue
+					}
+					for _, opnd := range []ssa.Value{bo.X, bo.Y} {
+						for _, rr := range k.rc.Roots(opnd) {
+							if f, _, ok := k.loadField(rr); ok && f == k.fBackoff {
+								out[bo] = true
+							}
+						}
+					}
+				}
+			}
+		})
+	}
+	return out
+}
+
+// clamped classifies value v stored into the current window in block b:
+// 1 = known <= the maximum delay, 2 = the value the field already holds
+// (written back unchanged), 0 = not known. sub maps parameters of a helper
+// whose result is being examined to the arguments of that call.
+func (k *c09) clamped(pf *PathFlow, v ssa.Value, b *ssa.BasicBlock, depth int, sub map[*ssa.Parameter]ssa.Value) int {
+	if depth > 6 {
+		return 0
+	}
+	res := func(v ssa.Value) ssa.Value {
+		for i := 0; i < 4; i++ {
+			if pa, ok := v.(*ssa.Parameter); ok {
+				if a, ok := sub[pa]; ok {
+					v = a
+					continue
+				}
+			}
+			break
+		}
+		return v
+	}
+	v = res(v)
+	if t := k.term(nil, v); t.kind == 2 {
+		switch t.field {
+		case k.fMax, k.fInit:
+			return 1
+		case k.fCur:
+			return 2
+		}
 	}
 	leMax := func(facts []PFact, v ssa.Value) bool {
 		for _, f := range facts {
@@ -298,80 +381,116 @@ func (k *c09) clamped(pf *PathFlow, v ssa.Value, b *ssa.BasicBlock, depth int) b
 			if x != v {
 				continue
 			}
-			if t := k.term(nil, y); t.kind == 2 && t.field == k.fMax && (op == token.LEQ || op == token.LSS || op == token.EQL) {
+			if t := k.term(nil, res(y)); t.kind == 2 && t.field == k.fMax && (op == token.LEQ || op == token.LSS || op == token.EQL) {
 				return true
 			}
 		}
 		return false
 	}
 	if b != nil && leMax(k.fc.blockFacts(b, 0), v) {
-		return true
+		return 1
+	}
+	// all: every alternative is clamped (1) or unchanged (2); 2 if any is unchanged
+	all := func(cls []int) int {
+		if len(cls) == 0 {
+			return 0
+		}
+		out := 1
+		for _, c := range cls {
+			if c == 0 {
+				return 0
+			}
+			if c == 2 {
+				out = 2
+			}
+		}
+		return out
+	}
+	fromCall := func(call *ssa.Call, idx int) int {
+		cal := staticCallee(call)
+		if cal == nil || !k.follow(cal) || idx >= cal.Signature.Results().Len() {
+			return 0
+		}
+		nsub := map[*ssa.Parameter]ssa.Value{}
+		for pa, a := range sub {
+			nsub[pa] = a
+		}
+		for i, pa := range cal.Params {
+			if i < len(call.Call.Args) {
+				nsub[pa] = res(call.Call.Args[i])
+			}
+		}
+		var cls []int
+		for _, blk := range cal.Blocks {
+			if len(blk.Instrs) == 0 || (blk != cal.Blocks[0] && len(blk.Preds) == 0) {
+				continue
+			}
+			if ret, ok := blk.Instrs[len(blk.Instrs)-1].(*ssa.Return); ok && idx < len(ret.Results) {
+				rvs := unspill(ret.Results[idx])
+				if u, ok := ret.Results[idx].(*ssa.UnOp); ok {
+					if def := c09SlotDef(u); def != nil {
+						rvs = []ssa.Value{def}
+					}
+				}
+				for _, rv := range rvs {
+					cls = append(cls, k.clamped(pf, rv, blk, depth+1, nsub))
+				}
+			}
+		}
+		return all(cls)
 	}
 	switch x := v.(type) {
 	case *ssa.ChangeType:
-		return k.clamped(pf, x.X, b, depth+1)
+		return k.clamped(pf, x.X, b, depth+1, sub)
 	case *ssa.Phi:
+		var cls []int
 		for i, e := range x.Edges {
 			pred := x.Block().Preds[i]
-			if k.clamped(pf, e, pred, depth+1) {
-				continue
+			c := k.clamped(pf, e, pred, depth+1, sub)
+			if c == 0 && leMax(k.fc.edgeFacts(pred, x.Block(), 0), res(e)) {
+				c = 1
 			}
-			if leMax(k.fc.edgeFacts(pred, x.Block(), 0), e) {
-				continue
-			}
-			return false
+			cls = append(cls, c)
 		}
-		return len(x.Edges) > 0
+		return all(cls)
+	case *ssa.Extract:
+		if call, ok := x.Tuple.(*ssa.Call); ok {
+			return fromCall(call, x.Index)
+		}
 	case *ssa.Call:
 		if builtinName(x) == "min" {
 			for _, arg := range x.Call.Args {
-				if k.clamped(pf, arg, b, depth+1) {
-					return true
+				if k.clamped(pf, arg, b, depth+1, sub) == 1 {
+					return 1
 				}
 			}
-			return false
+			return 0
 		}
-		if cal := staticCallee(x); cal != nil && k.follow(cal) && cal.Signature.Results().Len() == 1 {
-			n := 0
-			for _, blk := range cal.Blocks {
-				if len(blk.Instrs) == 0 || (blk != cal.Blocks[0] && len(blk.Preds) == 0) {
-					continue
-				}
-				if ret, ok := blk.Instrs[len(blk.Instrs)-1].(*ssa.Return); ok && len(ret.Results) == 1 {
-					for _, rv := range unspill(ret.Results[0]) {
-						n++
-						if !k.clamped(pf, rv, blk, depth+1) {
-							return false
-						}
-					}
-				}
-			}
-			return n > 0
-		}
+		return fromCall(x, 0)
 	case *ssa.Parameter:
 		if pf != nil {
 			if r := pf.Resolve(v); r != v {
-				return k.clamped(pf, r, nil, depth+1)
+				return k.clamped(pf, r, nil, depth+1, sub)
 			}
 		}
 	case *ssa.UnOp:
 		if x.Op == token.MUL {
 			if a, ok := x.X.(*ssa.Alloc); ok {
+				if def := c09SlotDef(x); def != nil {
+					return k.clamped(pf, def, nil, depth+1, sub)
+				}
 				// a local variable: every store into it is clamped
-				n := 0
+				var cls []int
 				for _, r := range refs(a) {
 					if st, ok := r.(*ssa.Store); ok && st.Addr == ssa.Value(a) {
-						n++
-						if !k.clamped(pf, st.Val, st.Block(), depth+1) {
-							return false
-						}
+						cls = append(cls, k.clamped(pf, st.Val, st.Block(), depth+1, sub))
 					}
 				}
-				return n > 0
+				return all(cls)
 			}
 		}
 	}
-	return false
+	return 0
 }
 
 // ---------------------------------------------------------------- L11
@@ -393,7 +512,7 @@ func (k *c09) runContext() {
 		return false
 	}
 	derives := map[*ssa.Call]bool{}
-	WalkCalls(k.run, nil, nil, k.follow, false, func(pf *PathFlow, in ssa.Instruction) {
+	WalkCalls(k.flow(), k.run, false, func(pf *PathFlow, in ssa.Instruction) {
 		if call, ok := in.(*ssa.Call); ok && isDerive(call) {
 			derives[call] = true
 		}
@@ -492,7 +611,7 @@ func (k *c09) runContext() {
 		return false
 	}
 	okCancel, nRet := true, 0
-	pf := &PathFlow{Follow: k.follow, Facts: k.fc}
+	pf := k.flow()
 	pf.Instr = func(pf *PathFlow, in ssa.Instruction, replay bool, st PState) []PState {
 		if _, isDefer := in.(*ssa.Defer); isDefer && !replay {
 			return []PState{st}
